@@ -356,6 +356,80 @@ func (r *c39Runner) Step(op string) (out string) {
 		}
 		r.snapDone = true
 		res = "ok"
+	case "snap2": // the target installs the hash-slot snapshot AGAIN (retry / newer snapshot)
+		if len(f) != 1 {
+			return "bad-op"
+		}
+		if !r.snapDone || r.switched {
+			res = "skip"
+			break
+		}
+		snap, err := r.s.ExportHashSlotSnapshot(ctx, c39HS)
+		if err != nil {
+			res = c39Err(err)
+			break
+		}
+		if err := r.t.ImportHashSlotSnapshot(ctx, snap); err != nil {
+			res = c39Err(err)
+			break
+		}
+		res = "ok"
+	case "sb": // ONE source ApplyBatch with several commands: f = enter_fence, w.k.v = write, a.i = replicated ack
+		if len(f) < 3 || len(f) > 6 {
+			return "bad-op"
+		}
+		var batch []multiraft.Command
+		var kinds []string
+		skip := false
+		base := r.sIdx
+		for n, it := range f[1:] {
+			p := strings.Split(it, ".")
+			var data []byte
+			switch {
+			case it == "f":
+				data = fsm.EncodeEnterFenceCommand(c39HS)
+			case p[0] == "w" && len(p) == 3:
+				k, v := c39Num(p[1], c39Keys), c39Num(p[2], 1<<20)
+				if k == 0 {
+					return "bad-op"
+				}
+				data = fsm.EncodeUpsertUserCommand(c39User(k, v))
+			case p[0] == "a" && len(p) == 2:
+				i := c39Num(p[1], 1<<20)
+				if !r.delivered[i] {
+					skip = true
+				}
+				data = fsm.EncodeAckHashSlotMigrationOutboxCommand(c39HS, multiraft.SlotID(c39SrcSlot), multiraft.SlotID(c39TgtSlot), i)
+			default:
+				return "bad-op"
+			}
+			kinds = append(kinds, it[:1])
+			batch = append(batch, multiraft.Command{SlotID: multiraft.SlotID(c39SrcSlot), HashSlot: c39HS, Index: base + uint64(n) + 1, Term: 1, Data: data})
+		}
+		r.sIdx = base + uint64(len(batch)) // the line always consumes one source index per command
+		if skip {
+			res = "skip"
+			break
+		}
+		res = c39Res(r.s.ApplyBatch(ctx, batch))
+		if !strings.HasPrefix(res, "err") {
+			for n, x := range strings.Split(res, ",") {
+				if kinds[n] == "f" && x == "ok" {
+					r.fencedSeen = true
+				}
+			}
+		}
+	case "cl": // replicated outbox cleanup (orchestrator: only after the switch)
+		if len(f) != 2 {
+			return "bad-op"
+		}
+		i := c39Num(f[1], 1<<20)
+		if !r.switched {
+			r.sIdx++
+			res = "skip"
+			break
+		}
+		res = r.applyS(fsm.EncodeCleanupHashSlotMigrationOutboxCommand(c39HS, multiraft.SlotID(c39SrcSlot), multiraft.SlotID(c39TgtSlot), i))
 	case "dl", "dlo", "dlm":
 		// dl : deliver live-forwarded deltas (by source index) to the target in ONE ApplyBatch, in the given order
 		// dlo: the same, but the replayer reads the rows from the source's durable outbox
